@@ -288,7 +288,7 @@ prop(
     "C14",
     level="other",
     design_ref="DESIGN.md section 3, C14",
-    groups=[(["./pipeline/doif"], r"^(\(\*logicalNode\)\.Check|NewLogicalNode|NewFieldOpNode|\(\*fieldOpNode\)\.Check|\(\*lenCmpOpNode\)\.Check|\(\*tsCmpOpNode\)\.Check|getNodeBytesSize|getNodeFieldsBytesSize|extractOpValuesFromArr|\(cmpOperation\)\.compare)$"),
+    groups=[(["./pipeline/doif", "./pipeline"], r"^(\(\*logicalNode\)\.Check|NewLogicalNode|NewFieldOpNode|\(\*fieldOpNode\)\.Check|\(\*lenCmpOpNode\)\.Check|\(\*tsCmpOpNode\)\.Check|getNodeBytesSize|getNodeFieldsBytesSize|extractOpValuesFromArr|\(cmpOperation\)\.compare|\(\*checkTypeOpNode\)\.Check|NewCheckTypeOpNode(\$[1-6])?|\(eventData\)\.Get|newCmpOp|NewLenCmpOpNode|NewTsCmpOpNode|\(\*tsCmpOpNode\)\.startUpdater|extractDoIfNode|extractLogicalOpNode|extractFieldOpNode|extractOpValues|extractLengthCmpOpNode|extractTsCmpOpNode|extractCheckTypeOpNode|getAny|get|anyToInt|NewFromMap|\(\*Checker\)\.Check)$"),
             (["./fd"], r"^extractConditions$"),
             (["./pipeline"], r"^(\(\*processor\)\.(isMatch|isMatchOr|isMatchAnd)|\(\*MatchCondition\)\.valueExists)$")],
     canaries=[("./pipeline", "replay/C14/zz_replay_c14_test.go", "TestVerifReplayC14"),
